@@ -18,6 +18,13 @@ prefixes of each other), `mini` (the minimised scenario of seeded/C18-1: data/a.
 C18 ("with no targets it applies to the files under the current directory"): besides root-with-`cwd/` vs subdirectory
 without targets, a direct oracle on the observations (everything the command acted on lies COMPONENT-wise below the
 cwd), and in the tie model selection == Lean specification `properAncestor` == component-wise descendants.
+
+copy / move (`case['dest_state']`, second preparation step `apply_dest_state`): file and directory destinations whose
+path is absent / an UNTRACKED workspace file / tracked / untracked at the mirrored location <cwd>/<cwd>/<dest> only,
+copy with and without --force.  Compared between A/B/C: records, cache, workspace incl. the bytes of the pre-existing
+untracked files, and the exit class (done / refused / panic).  Direct oracle on B and C: without --force a file xvc
+does not know about is neither overwritten nor recorded.  Tie: model `copyDest` / `copyRefused` (destination path and
+guard decision on the recorded paths and workspace paths of the case) vs what the binary did in B.
 """
 import concurrent.futures, hashlib, json, os, shutil, stat
 from common import Check, run_lines, shrink
@@ -371,7 +378,7 @@ SHAPES = ['file', 'files', 'dir/', 'dir', 'glob', 'mixed', 'none']
 NOTARGET_FAMILIES = ['track', 'carry-in', 'recheck', 'list', 'send', 'bring']
 
 
-def gen_case(rng, chk, family=None, cwd=None, shape=None, layout='base', variant=None):
+def gen_case(rng, chk, family=None, cwd=None, shape=None, layout='base', variant=None, dest_kind=None, dest_state=None, force=None):
     L = layout_of({'layout': layout})
     family = family or rng.choice(FAMILIES)
     cwd = cwd or rng.choice(L['cwds'])
@@ -381,14 +388,22 @@ def gen_case(rng, chk, family=None, cwd=None, shape=None, layout='base', variant
     if layout != 'base':
         case['layout'] = layout
     if family in ('copy', 'move'):
-        # source and destination, both relative to the cwd; file -> file (directory destinations: K9b replay)
+        # source and destination, both relative to the cwd (no `..`: known finding).  Destination: a file or a directory
+        # `dir/`; state of the destination path before the command: absent / an UNTRACKED workspace file / already
+        # tracked / an untracked file at the mirrored location <cwd>/<cwd>/<dest> only; copy with and without --force
         files = [p[len(cwd) + 1:] for p in under(cwd, L['files'])]
         src = rng.choice(files)
-        dst = rng.choice(['copied.txt', 'new/dest.txt', os.path.dirname(src) + '/renamed.' + src.split('.')[-1] if '/' in src else 'renamed.' + src.split('.')[-1]])
-        if not dst.endswith('.' + src.split('.')[-1]):
-            dst = dst.rsplit('.', 1)[0] + '.' + src.split('.')[-1]     # keep the extension (K2 is another property's finding)
+        ext = src.split('.')[-1]                              # keep the extension (K2 is another property's finding)
+        kind = dest_kind or ('dir' if rng.random() < 0.3 else 'file')
+        if kind == 'dir':
+            dst = rng.choice(['dstdir/', 'new/dd/'])
+        else:
+            dst = rng.choice(['copied.' + ext, 'new/dest.' + ext, (os.path.dirname(src) + '/' if '/' in src else '') + 'renamed.' + ext])
         case['targets'] = [src, dst]
-        case['shape'] = 'file->file'
+        case['shape'] = 'file->dir' if kind == 'dir' else 'file->file'
+        case['dest_state'] = dest_state or rng.choice(['absent'] * 3 + ['untracked'] * 3 + ['tracked'] + ['mirror'] * 2)
+        if family == 'copy' and (rng.random() < 0.3 if force is None else force):
+            case['opts'] = ['--force']
     else:
         # on the adversarial layout the no-target shape (the second sentence of C18) gets a third of the random cases
         shape = shape or (rng.choice(SHAPES) if layout == 'base' or rng.random() >= 0.25 else 'none')
@@ -417,6 +432,38 @@ def count_case(chk, case):
         chk.count('prefix-sibling:' + case['family'])
         if case['shape'] == 'none':
             chk.count('prefix-sibling-notargets:' + case['family'])
+    if case['family'] in ('copy', 'move') and case['shape'] in ('file->file', 'file->dir'):
+        chk.count(f"destination:{case['family']}:{case['shape'].split('->')[1]}:{case.get('dest_state', 'absent')}" + (':force' if '--force' in case['opts'] else ''))
+
+
+def copy_dest_path(case):
+    """root-relative path a copy / move of ONE file writes to, computed here (not by the model): a file destination is
+    cwd/dest, a directory destination `dir/` is cwd/dir/<full root-relative source path>"""
+    cwd = case['cwd']
+    src, dst = case['targets']
+    if dst.endswith('/'):
+        return os.path.normpath(join(cwd, dst.rstrip('/')) + '/' + join(cwd, src))
+    return os.path.normpath(join(cwd, dst))
+
+
+def apply_dest_state(sb, case):
+    """second preparation step of copy / move: what is at the destination path before the command"""
+    st = case.get('dest_state', 'absent')
+    if case['family'] not in ('copy', 'move') or st == 'absent':
+        return
+    P = copy_dest_path(case)
+    if st == 'mirror':
+        # a file xvc does not know about at <cwd>/<root-relative destination> -- NOT the destination
+        sb.write(join(case['cwd'], P), f'precious mirror {P}\n')
+        return
+    sb.write(P, f'precious {P}\n')                           # a file xvc does not know about AT the destination
+    if st == 'tracked':
+        method = ['copy', 'symlink', 'hardlink'][case['variant'] % 3]
+        sb.x('file', 'track', '--recheck-method', method, P)
+
+
+def exit_class(rc):
+    return {0: 'done (exit 0)', 101: 'panic', 124: 'timeout'}.get(rc, f'refused (exit {rc})')
 
 
 def root_targets(case):
@@ -434,6 +481,7 @@ def run_case(chk, xvc, name, case):
     os.makedirs(base, exist_ok=True)
     L = layout_of(case)
     stage = prepare(chk, xvc, f'{name}/stage', case['family'], case['variant'], case.get('storage_path') or storage, L)
+    apply_dest_state(stage, case)
     storage0 = os.path.join(base, 'storage0')
     if os.path.isdir(storage):
         shutil.copytree(storage, storage0)
@@ -482,6 +530,27 @@ def run_case(chk, xvc, name, case):
         if case['family'] == 'list' and runs['A']['abs']['list'] != runs[other]['abs']['list']:
             la, lb = runs['A']['abs']['list'], runs[other]['abs']['list']
             msgs.append(f"list rows differ ({other}): only at root {[r for r in la if r not in lb][:4]}, only from {runs[other]['cwd']} {[r for r in lb if r not in la][:4]}")
+    if case['family'] in ('copy', 'move'):
+        # exit class: "refused at the root, done from the subdirectory" is a difference even before looking at effects
+        for other in ('B', 'C'):
+            if other in runs and 'A' in runs and not ('A' in panicked and other in panicked) \
+                    and exit_class(runs['A']['rc']) != exit_class(runs[other]['rc']):
+                msgs.append(f"exit class differs: `{' '.join(runs['A']['argv'])}` at the root: {exit_class(runs['A']['rc'])}, "
+                            f"`{' '.join(runs[other]['argv'])}` in {runs[other]['cwd']}: {exit_class(runs[other]['rc'])}")
+        # the guard, stated directly on the observations of the subdirectory runs (independent of run A and of the
+        # model): without --force a file xvc does not know about is never overwritten and never becomes recorded
+        if '--force' not in case['opts']:
+            unknown = {p: w for p, w in pre['workspace'].items() if w['kind'] == 'file' and 'sha' in w and os.path.basename(p) not in ('.gitignore', '.xvcignore')
+                       and pre['records'].get(p, {}).get('type') != 'File'}
+            for other in ('B', 'C'):
+                if other not in runs or runs[other]['rc'] in (101, 124):
+                    continue
+                post = runs[other]['abs']
+                for p, w in sorted(unknown.items()):
+                    if post['workspace'].get(p) != w:
+                        msgs.append(f"`{' '.join(runs[other]['argv'])}` (no --force) in {cwd} overwrote the untracked file {p}: {w} -> {post['workspace'].get(p)}")
+                    if post['records'].get(p, {}).get('type') == 'File':
+                        msgs.append(f"`{' '.join(runs[other]['argv'])}` (no --force) in {cwd} recorded the pre-existing untracked file {p}")
     # second sentence of C18, stated directly on the observations (independent of run A and of the model): without
     # targets the command acts on nothing but files under the current directory -- component-wise (`below`)
     if case['shape'] == 'none':
@@ -537,18 +606,21 @@ def is_dirpath(p, *abss, dirs=DIRS):
 def model_select(model_bin, requests):
     """requests: list of (cwd, targets or None, store paths, disk files, dirs) -> list of (sel_store, sel_disk, (below_store, below_disk))"""
     lines, idx = [], []
-    for cwd, targets, store, disk, dirs in requests:
+    for cwd, targets, store, disk, dirs, *dest in requests:
         lines += ['reset', f'cwd {cwd or "."}']
         lines += [f'store {p}' for p in store] + [f'disk {p}' for p in disk] + [f'dir {p}' for p in dirs]
         lines += ['notargets'] if targets is None else [f'target {t}' for t in targets]
         lines += ['sel store', 'sel disk', 'sel below']
+        # copy / move of one file: destination path and decision of the guard (force, destination argument, source path)
+        lines += [f'refused {int(dest[0][0])} {dest[0][1]} {dest[0][2]}' if dest and dest[0] else '']
         idx.append(len(lines))
     rc, ans, err = run_lines(model_bin, [], lines)
-    if rc != 0 or len(ans) != len(lines) or any(';' not in ans[k - 1] for k in idx):
+    if rc != 0 or len(ans) != len(lines) or any(';' not in ans[k - 2] for k in idx):
         return None
     st = lambda x: {y for y in x.split(',') if y}
-    # (selectStore, selectDisk, (specification `properAncestor` on the recorded paths, on the paths on disk))
-    return [(st(ans[k - 3]), st(ans[k - 2]), tuple(st(x) for x in ans[k - 1].split(';'))) for k in idx]
+    # (selectStore, selectDisk, (specification `properAncestor` on the recorded paths, on the paths on disk), guard)
+    return [(st(ans[k - 4]), st(ans[k - 3]), tuple(st(x) for x in ans[k - 2].split(';')),
+             (ans[k - 1].split(';')[0], ans[k - 1].split(';')[1] == '1') if ';' in ans[k - 1] else None) for k in idx]
 
 
 def model_request(r):
@@ -557,18 +629,21 @@ def model_request(r):
     dirs = set(pre['dirs']) | {cwd} | {cwd.rsplit('/', i)[0] for i in range(1, cwd.count('/') + 1)}
     disk = [p for p in pre['workspace'] if os.path.basename(p) not in ('.gitignore', '.xvcignore')]
     fam = case['family']
+    dest = None
     if fam in ('copy', 'move'):
         src = case['targets'][0]
         targets = [src + '*' if src.endswith('/') else src]           # get_source_path_metadata
+        if case['shape'] in ('file->file', 'file->dir'):
+            dest = ('--force' in case['opts'], case['targets'][1], join(cwd, src))
     else:
         targets = None if case['shape'] == 'none' else case['targets']
-    return (cwd, targets, sorted(pre['records']), sorted(disk), sorted(dirs))
+    return (cwd, targets, sorted(pre['records']), sorted(disk), sorted(dirs), dest)
 
 
 def tie_no_targets(r, sel_store, sel_disk, spec):
     """no targets: the model's selection vs the specification `properAncestor` evaluated by the driver vs the
     component-wise test evaluated here, on the recorded paths and the paths on disk of this very case"""
-    cwd, store, disk, dirs = model_request(r)[0], *model_request(r)[2:]
+    cwd, store, disk, dirs = model_request(r)[0], *model_request(r)[2:5]
     msgs = []
     want_s = {p for p in store if below(cwd, p)}
     want_d = {p for p in set(disk) | set(dirs) if below(cwd, p)}
@@ -579,7 +654,33 @@ def tie_no_targets(r, sel_store, sel_disk, spec):
     return msgs
 
 
-def tie_check(r, sel_store, sel_disk, spec=None):
+def tie_guard(r, guard):
+    """copy / move of one file: destination path and decision of the guard -- model (`copyDest`, `copyRefused` on the
+    recorded paths and the workspace paths of this very case) vs the path computed here vs what the binary did in B"""
+    case, pre, run = r['case'], r['pre'], r['runs']['B']
+    post = run['abs']
+    if run['rc'] in (101, 124):
+        return []
+    mdest, mrefused = guard
+    msgs = []
+    P, srcP = copy_dest_path(case), join(case['cwd'], case['targets'][0])
+    if mdest != P:
+        msgs.append(f'destination path: model copyDest {mdest} vs cwd-joined {P}')
+    is_file = lambda ab, p: ab['records'].get(p, {}).get('type') == 'File'
+    files = lambda ab: {p: v for p, v in ab['records'].items() if v.get('type') == 'File'}
+    if mrefused:
+        if files(pre) != files(post) or post['workspace'].get(P) != pre['workspace'].get(P):
+            msgs.append(f"{case['family']}: model guard refuses (destination {mdest} recorded or on disk, no --force) but the command changed records or the destination")
+    else:
+        src_digest = pre['records'].get(srcP, {}).get('digest')
+        if not is_file(post, P) or post['records'][P].get('digest') != src_digest:
+            msgs.append(f"{case['family']}: model guard lets the command pass but {P} is not recorded with the digest of {srcP} afterwards: {post['records'].get(P)}")
+        if case['family'] == 'move' and is_file(post, srcP):
+            msgs.append(f'move: model guard lets the command pass but the source {srcP} is still recorded')
+    return msgs
+
+
+def tie_check(r, sel_store, sel_disk, spec=None, guard=None):
     """compare what the command touched in copy B (run from the subdirectory) with the model's selection"""
     case, pre = r['case'], r['pre']
     if 'B' not in r['runs']:
@@ -595,6 +696,8 @@ def tie_check(r, sel_store, sel_disk, spec=None):
     msgs = []
     if case['shape'] == 'none' and spec is not None:
         msgs += tie_no_targets(r, sel_store, sel_disk, spec)
+    if guard is not None:
+        msgs += tie_guard(r, guard)
 
     def eq(must, what):
         if tch != must:
@@ -628,8 +731,9 @@ def tie_check(r, sel_store, sel_disk, spec=None):
             msgs.append(f'untrack: records removed {sorted(removed)} vs model selectStore {sorted(selF)}')
     elif fam == 'move':
         removed = {p for p, rec in pre['records'].items() if rec['type'] == 'File' and p not in post['records']}
-        if removed != selF:
-            msgs.append(f'move: source records moved away {sorted(removed)} vs model selectStore(source) {sorted(selF)}')
+        want = set() if guard is not None and guard[1] else selF       # a refused move moves nothing
+        if removed != want:
+            msgs.append(f'move: source records moved away {sorted(removed)} vs model selectStore(source) {sorted(want)}')
     return msgs
 
 
@@ -669,7 +773,19 @@ def _nt(layout, family, cwd, variant=0, opts=()):
     return {'layout': layout, 'family': family, 'cwd': cwd, 'variant': variant, 'opts': list(opts), 'shape': 'none', 'targets': []}
 
 
+def _cm(layout, family, cwd, src, dst, state, force=False, variant=0):
+    return {'layout': layout, 'family': family, 'cwd': cwd, 'variant': variant, 'opts': ['--force'] if force else [],
+            'shape': 'file->dir' if dst.endswith('/') else 'file->file', 'targets': [src, dst], 'dest_state': state}
+
+
 CORPUS = [
+    # seeded/C18-2 (minimised): data/a.txt is tracked, a file xvc does not know about is at the copy destination (file
+    # destination data/b.txt; directory destination data/backup/ -> data/backup/data/a.txt); without --force the copy is
+    # refused at the root and must be refused from data/ (cd and -C) as well.  Mirror image: an unknown file at
+    # data/data/c.txt must not make `copy a.txt c.txt` in data/ fail.  The same for move (same guard, other function).
+    _cm('mini', 'copy', 'data', 'a.txt', 'b.txt', 'untracked'), _cm('mini', 'copy', 'data', 'a.txt', 'backup/', 'untracked'),
+    _cm('mini', 'copy', 'data', 'a.txt', 'c.txt', 'mirror'), _cm('mini', 'move', 'data', 'a.txt', 'b.txt', 'untracked'),
+    _cm('mini', 'move', 'data', 'a.txt', 'backup/', 'mirror'),
     # seeded/C18-1 (minimised): no targets in `data`, the sibling `data2` extends its name and its file is changed
     # (carry-in) / missing (recheck, bring) / not in the storage (send); then the full adversarial layout at the root,
     # nested and with -C (every case runs cd and -C)
@@ -777,10 +893,11 @@ def run(chk: Check):
         'the shortcut of targets_from_disk for plain file names (stat instead of walk) returns the same set as the walk (checked by the metamorphic comparison: the root run takes the shortcut, the subdirectory run does not)',
         'records of directories are compared by path and type only; `.gitignore` files as sorted lines without xvc\'s time-stamped banner',
         'local storage is created with an absolute path (relative path: known finding)',
+        'copy / move: one source file, destination inside the cwd (no `..`: known finding), same extension as the source (K2 is a finding of C19), no --name-only; a directory-destination copy that is refused per file exits 0 in the unchanged binary (the refusal is visible as "no effect")',
         'file and directory names are literal: letters, digits, `.`, `-`, `_` (glob metacharacters in names: known gap of the unchanged binary, not generated)',
         'messages are not compared (only effects and the rows of `list`); a differing number of [ERROR] lines between the directories is counted in the distribution (error-line-count-differs-between-directories:<family>)',
     ]
-    n = 100 if quick else 1000
+    n = 90 if quick else 1000
     cases = [dict(c) for c in CORPUS]
     for c in cases:
         count_case(chk, c)
@@ -806,10 +923,22 @@ def run(chk: Check):
             cwd = PL['cwds'][k % len(PL['cwds'])]
             k += 1
             cases.append(gen_case(chk.rng, chk, fam, cwd, shape, layout='prefix'))
+    # destinations of copy / move, systematic, on both layouts: file and directory destination x state of the
+    # destination path (absent / untracked file / tracked / untracked file at <cwd>/<cwd>/<dest> only); copy also --force
+    for layout in ('base', 'prefix'):
+        cw = LAYOUTS[layout]['cwds']
+        for kind in ('file', 'dir'):
+            for fam, state, force in [('copy', 'absent', False), ('copy', 'untracked', False), ('copy', 'untracked', True),
+                                      ('copy', 'tracked', False), ('copy', 'tracked', True), ('copy', 'mirror', False),
+                                      ('move', 'absent', False), ('move', 'untracked', False), ('move', 'tracked', False),
+                                      ('move', 'mirror', False)]:
+                k += 1
+                cases.append(gen_case(chk.rng, chk, fam, cw[k % len(cw)], layout=layout, dest_kind=kind, dest_state=state, force=force))
     cases += [gen_case(chk.rng, chk, layout='prefix' if i % 5 in (1, 3) else 'base') for i in range(n)]
-    chk.extra['rule'] = (f'corpus ({len(CORPUS)} fixed cases: seeded/C18-1 minimised (no targets next to a sibling whose name extends the name of the cwd), F3, directory-slash rule with an absent directory, K9b, track without targets / with -C) + {len(KNOWN_REPLAYS)} known-finding replays + '
+    chk.extra['rule'] = (f'corpus ({len(CORPUS)} fixed cases: seeded/C18-2 minimised (copy onto an untracked file from a subdirectory), seeded/C18-1 minimised (no targets next to a sibling whose name extends the name of the cwd), F3, directory-slash rule with an absent directory, K9b, track without targets / with -C) + {len(KNOWN_REPLAYS)} known-finding replays + '
                          f'every command family (track, carry-in, recheck, list, send, bring, remove, untrack, copy, move) x every depth 1-3 with rotating target shapes + '
                          f'adversarial-name layout (data / data2 / data-old / data.bak / datafile.txt / da, data/raw / data/rawer / data/raw.txt, proj/train / proj/train_aug / proj/train.csv / proj/tr): '
+                         f'copy / move destinations on both layouts: file and directory destination x (absent, untracked workspace file, tracked, untracked file at <cwd>/<cwd>/<dest> only), copy with and without --force (40 cases; exit class compared; direct guard oracle: without --force an untracked file is neither overwritten nor recorded; model copyDest/copyRefused vs binary); '
                          f'no targets for every family that accepts it ({", ".join(NOTARGET_FAMILIES)}) x every cwd with such a sibling ({", ".join(sib_cwds)}) with every file actionable, and every family x 2 cwds with explicit targets + {n} random cases, 2 in 5 on the adversarial layout '
                          '(family, cwd of depth 1-3, shape in file / two files / dir/ / dir / glob / file+glob / no targets, option variants --recheck-method, --force, preparation variants incl. tracked '
                          'with copy/symlink/hardlink, edited files, deleted files, a whole directory deleted). Every case: one prepared repository, three byte-identical copies, the command from the root with '
@@ -852,11 +981,15 @@ def run(chk: Check):
             chk.disagreement('model_selection', {}, 'n/a', 'model driver failed', 'process failure')
         else:
             seen = set()
-            for r, (ss, sd, spec) in zip(ok, sels):
+            for r, (ss, sd, spec, guard) in zip(ok, sels):
                 ts['cases'] += 1
                 if r['case']['shape'] == 'none':
                     ts['no_targets_vs_properAncestor'] = ts.get('no_targets_vs_properAncestor', 0) + 1
-                m = tie_check(r, ss, sd, spec)
+                if guard is not None:
+                    ts['copy_move_guard_vs_model'] = ts.get('copy_move_guard_vs_model', 0) + 1
+                    chk.count(f"guard:{r['case']['family']}:{r['case'].get('dest_state', 'absent')}" + (':force' if '--force' in r['case']['opts'] else '')
+                              + (':refused' if guard[1] else ':done'))
+                m = tie_check(r, ss, sd, spec, guard)
                 if m:
                     ts['disagreements'] += 1
                     if r['case']['family'] not in seen:
